@@ -12,7 +12,8 @@ package main
 //     proc  : who really signs and how: <key name>:<hash>:<encoding> | none
 //     form  : att | det | b64f
 //     mut   : none | flip:<H|P|S>:<permille> | last:<H|P|S> | nl:<H|P|S>:<permille> | pad:<H|P|S> | alg:<other> |
-//             kid:<other vm> | kidraw:<text> | nosig | dot | detp (alter the detached payload)
+//             kid:<other vm> | kidraw:<text> | nosig | dot | detp (alter the detached payload) | attdet | ext:<char|n> |
+//             did2 (kid under did:test:other, whose document binds every fragment to the other key of its type)
 // output := for B64: "dec=<hex|err> enc=<text>"
 //           for TOK: "tok=<token text> det=<hex of detached payload|-> rec=<key>,<hash>,<enc>,<b64 msg>,<b64 sig> res=<acc|rej>"
 
@@ -132,13 +133,64 @@ func c08Setup() {
 		}
 	}
 	c08Doc = doc
+	// a second DID whose document has the SAME fragments, each bound to the OTHER key of its type (a <-> b)
+	other := &did.Doc{ID: c08DID2, Context: []string{"https://www.w3.org/ns/did/v1"}}
+	swap := func(n string) string {
+		if n == "a" {
+			return "b"
+		}
+		return "a"
+	}
+	add2 := func(frag string, k *c08Key, rep string) {
+		id := c08DID2 + "#" + frag
+		if rep == "jwk" {
+			j, err := jwksupport.JWKFromKey(k.pub)
+			if err != nil {
+				panic(err)
+			}
+			vm, err := did.NewVerificationMethodFromJWK(id, "JsonWebKey2020", c08DID2, j)
+			if err != nil {
+				panic(err)
+			}
+			other.VerificationMethod = append(other.VerificationMethod, *vm)
+			return
+		}
+		typ := map[string]string{"ed": "Ed25519VerificationKey2018", "k256": "EcdsaSecp256k1VerificationKey2019",
+			"rsa": "RsaVerificationKey2018"}[k.typ]
+		if typ == "" {
+			typ = "EcdsaSecp256r1VerificationKey2019"
+		}
+		other.VerificationMethod = append(other.VerificationMethod, *did.NewVerificationMethodFromBytes(id, typ, c08DID2, k.raw))
+	}
+	add2("k-11", c08Keys["ed-a"], "raw")
+	add2("k-1", c08Keys["ed-b"], "raw")
+	for _, t := range []string{"ed", "p256", "p384", "p521", "k256", "rsa"} {
+		for _, rep := range []string{"raw", "jwk"} {
+			for _, n := range []string{"a", "b"} {
+				add2(t+"-"+rep+"-"+n, c08Keys[t+"-"+swap(n)], rep)
+			}
+		}
+	}
+	c08Doc2 = other
 }
+
+const c08DID2 = "did:test:other"
+
+var (
+	c08Doc2 *did.Doc
+	// ONE long-lived verifier for all tokens a worker sees (as an agent has): whatever it remembers from one token must
+	// not decide another
+	c08SharedVerifier jose.SignatureVerifier
+)
 
 type c08Resolver struct{}
 
 func (c08Resolver) Resolve(id string, _ ...vdrspi.DIDMethodOption) (*did.DocResolution, error) {
 	if id == c08DID {
 		return &did.DocResolution{DIDDocument: c08Doc}, nil
+	}
+	if id == c08DID2 {
+		return &did.DocResolution{DIDDocument: c08Doc2}, nil
 	}
 	return nil, fmt.Errorf("did not found: %s", id)
 }
@@ -259,6 +311,8 @@ func c08Run(input string) string {
 	switch mf[0] {
 	case "kidraw":
 		hdr["kid"] = strings.ReplaceAll(strings.Join(mf[1:], ":"), "~", "#")
+	case "did2":
+		hdr["kid"] = c08DID2 + "#" + vm
 	}
 	payload := c08Claims(claims)
 	hb, _ := json.Marshal(hdr)
@@ -286,7 +340,7 @@ func c08Run(input string) string {
 	parts := map[string]*string{"H": &H, "P": &P, "S": &S}
 	applied := true
 	switch mf[0] {
-	case "none", "kidraw":
+	case "none", "kidraw", "did2":
 	case "flip", "nl":
 		p := parts[mf[1]]
 		var pm int
@@ -323,6 +377,31 @@ func c08Run(input string) string {
 		hdr["kid"] = c08DID + "#" + mf[1]
 		hb, _ = json.Marshal(hdr)
 		H = base64.RawURLEncoding.EncodeToString(hb)
+	case "attdet":
+		// an ordinary attached token handed in TOGETHER with a detached payload (another document)
+		if det != nil || entry == "did" {
+			applied = false
+			break
+		}
+		det = []byte(`{"another":"document"}`)
+	case "ext":
+		// extra characters / bytes after the signature
+		switch mf[1] {
+		case "char":
+			S += "A"
+		default:
+			raw, err := base64.RawURLEncoding.DecodeString(S)
+			if err != nil || len(raw) == 0 {
+				applied = false
+				break
+			}
+			var nb int
+			fmt.Sscanf(mf[1], "%d", &nb)
+			for i := 0; i < nb; i++ {
+				raw = append(raw, byte(27+i))
+			}
+			S = base64.RawURLEncoding.EncodeToString(raw)
+		}
 	case "nosig":
 		S = ""
 	case "dot":
@@ -339,16 +418,18 @@ func c08Run(input string) string {
 	tok := H + "." + P + "." + S
 	res := "rej"
 	var err error
-	resolver := jwt.KeyResolverFunc(didsignjwt.NewVDRKeyResolver(c08Resolver{}).PublicKeyFetcher())
+	if c08SharedVerifier == nil {
+		c08SharedVerifier = jwt.NewVerifier(jwt.KeyResolverFunc(didsignjwt.NewVDRKeyResolver(c08Resolver{}).PublicKeyFetcher()))
+	}
 	switch entry {
 	case "jws":
 		var opts []jose.JWSParseOpt
 		if det != nil {
 			opts = append(opts, jose.WithJWSDetachedPayload(det))
 		}
-		_, err = jose.ParseJWS(tok, jwt.NewVerifier(resolver), opts...)
+		_, err = jose.ParseJWS(tok, c08SharedVerifier, opts...)
 	case "jwt":
-		opts := []jwt.ParseOpt{jwt.WithSignatureVerifier(jwt.NewVerifier(resolver)), jwt.WithIgnoreClaimsMapDecoding(true)}
+		opts := []jwt.ParseOpt{jwt.WithSignatureVerifier(c08SharedVerifier), jwt.WithIgnoreClaimsMapDecoding(true)}
 		if det != nil {
 			opts = append(opts, jwt.WithJWTDetachedPayload(det))
 		}
@@ -463,6 +544,18 @@ func c08Gen(r *Rng, tier string) []string {
 			mut = "alg:" + r.Pick(append([]string{"none", "HS256", "", "eddsa"}, c08Algs...))
 		case x < 15:
 			mut = "kid:" + typ + "-" + rep + "-b"
+		case x < 16 && r.N(2) == 0:
+			mut = r.Pick([]string{"attdet", "attdet", "ext:char", "ext:1", "ext:1", "ext:2", "did2", "did2", "did2"})
+			if mut == "attdet" {
+				form = "att"
+			}
+			if mut == "did2" {
+				// a valid token under the OTHER DID: its fragment is bound to the b key there
+				proc = typ + "-b:" + hash + ":" + enc
+				if entry == "pk" || entry == "did" {
+					entry = "jws"
+				}
+			}
 		case x < 16:
 			mut = r.Pick([]string{"nosig", "dot", "detp", "kidraw:did:test:iss", "kidraw:did:test:iss~", "kidraw:" + vm,
 				"kidraw:did:test:other~" + vm, "kidraw:did:test:iss~" + vm + "~x", "kidraw:did:test:iss~" + typ})
